@@ -142,17 +142,35 @@ def run_mutated(desc):
             nodes.append(plan.gather(outer))
             cur = [vals[src.index(x)] for x in acc_list]
             want.append([cur, {"again": cur}])
+    # ... and call functions that mutate what they RECEIVE (sort in place, pop, append, update): a structure that contains nodes - even if those
+    # nodes are plain literals - is rebuilt for every evaluation, so the same plan gives the same answer every time it is run
+    l3, l1, l2 = plan.lit(3), plan.lit(1), plan.lit(2)
+
+    def take_smallest(xs):
+        xs.sort()
+        return xs.pop(0)
+
+    def grow(d):
+        d["n"] = d.get("n", 0) + 1
+        return sorted(d.items())
+
+    nodes.append(plan.call(take_smallest, [l3, l1, l2]))
+    want.append(1)
+    nodes.append(plan.call(grow, {"a": l1}))
+    want.append([("a", 1), ("n", 1)])
+    nodes.append(plan.call(lambda t_, xs: (t_, xs.append(9), list(xs))[2], (l1,), [(l2,), l3]))
+    want.append([(2,), 3, 9])
     bad = None
-    for W in (1, 3):
+    for W in (1, 3, 2):
         try:
             got = uberjob.run(plan, output=nodes, max_workers=W, progress=None)
         except BaseException as e:
             bad = f"run raised {e!r} (cause {e.__cause__!r})"
             break
         if got != want:
-            bad = f"run returned {got!r}; line-by-line evaluation gives {want!r}"
+            bad = f"run (#{(1, 3, 2).index(W) + 1} of the same plan) returned {got!r}; line-by-line evaluation gives {want!r}"
             break
-    res = {"status": "ok", "counters": {"mutated_container_cases": 1, "runs": 2}, "sets": {"features_exercised": ["mutated_containers"]}, "nontrivial": True,
+    res = {"status": "ok", "counters": {"mutated_container_cases": 1, "runs": 3}, "sets": {"features_exercised": ["mutated_containers"]}, "nontrivial": True,
            "sig": f"mutated|{desc['seed'] % 100000}"}
     if bad:
         res.update(status="violation", detail=f"[one container object reused and mutated between calls] {bad}", mechanism="value-mismatch")
@@ -210,6 +228,20 @@ def run_wrapped(desc):
             return ("nameless", x)
 
     nameless = Nameless()
+
+    class Const:
+        def __init__(self, v):
+            self.v = v
+
+        def __call__(self):
+            return (type(self.v).__name__, self.v)
+
+        def __eq__(self, o):
+            return type(o) is Const and o.v == self.v
+
+        def __hash__(self):
+            return hash(self.v)
+
     calls = [  # (callable, args, kwargs)
         (deco(f1), (1, 2), {}), (deco(f2), (3,), {"k": 4}), (deco(f3), (1,), {"f": 7, "attempts": 9, "zz": 1}), (deco(f3), (1, 2, 3, 4), {}),
         (deco(f4), (), {"fn": 1, "retry": 2, "node": 3}), (f4, ("a", "b"), {}), (functools.partial(f3, 10), (), {"exc_type": 1, "f": 2}),
@@ -219,6 +251,8 @@ def run_wrapped(desc):
         # namespace, and callables whose name attributes are unusual
         (", ".join, (["a", "b"],), {}), ({"k": 5}.get, ("k",), {}), ([1, 2, 2].count, (2,), {}), ("abc".upper, (), {}), (bare_ns["g"], (1,), {"b": 3}),
         (nameless, (4,), {}),
+        # callable objects that compare EQUAL (and hash alike) but are distinct and behave differently: 1 == 1.0 == True
+        (Const(1), (), {}), (Const(1.0), (), {}), (Const(True), (), {}),
     ]
     rng.shuffle(calls)
     calls = calls[: rng.randint(4, len(calls))]
